@@ -16,6 +16,7 @@ for c in $(git log --format=%h --grep='^fix:'); do
       *"DeleteAll must count"*) n=revert_syncmap_deleteall_count;;
       *"racing ExpireAll"*) n=revert_prepareread_order;;
       *"restored into an UnlimitedTTL"*) n=revert_restore_expirations;;
+      *"jittered down to exactly zero"*) n=revert_zero_jittered_ttl;;
       *) n=revert_$c;;
     esac
   fi
